@@ -346,13 +346,16 @@ def render_tables() -> str:
     o.append("/-- comparison in `run()`'s `while <time> ? <stop>` loop (Python ast operator name) -/")
     o.append('def runLoopCmp : String := "%s"\n' % run_cmp)
     o.append("inductive Mode | allow | restrict deriving DecidableEq, Repr\n")
-    o.append("/-- every `add_constraint` call site with a literal state list: (site, method, mode, states) -/")
-    o.append("def constraints : List (String × String × Mode × List String) := [")
-    o.append(",\n".join('  ("%s:%d", "%s", .%s, %s)' % (f, l, t, m, _lstr(s)) for f, l, t, m, s in rows))
+    o.append("/-- one `add_constraint` call site with a literal state list -/")
+    o.append("structure Con where")
+    o.append("  file : String\n  line : Nat\n  method : String\n  mode : Mode\n  states : List String")
+    o.append("  deriving Repr, DecidableEq\n")
+    o.append("def constraints : List Con := [")
+    o.append(",\n".join('  ⟨"%s", %d, "%s", .%s, %s⟩' % (f, l, t, m, _lstr(s)) for f, l, t, m, s in rows))
     o.append("]\n")
-    o.append("/-- call sites whose state list is computed at run time: (site, method, mode, expression) -/")
-    o.append("def dynamicConstraints : List (String × String × Mode × String) := [")
-    o.append(",\n".join('  ("%s:%d", "%s", .%s, "%s")' % (f, l, t, m, e) for f, l, t, m, e in dynamic))
+    o.append("/-- call sites whose state list is computed at run time: (file, line, method, mode, expression) -/")
+    o.append("def dynamicConstraints : List (String × Nat × String × Mode × String) := [")
+    o.append(",\n".join('  ("%s", %d, "%s", .%s, "%s")' % (f, l, t, m, e) for f, l, t, m, e in dynamic))
     o.append("]\n")
     o.append("/-- number of priority buckets per event channel and the default listener priority -/")
     o.append("def nBuckets : Nat := %d" % n_buckets)
